@@ -1371,6 +1371,11 @@ func (g *Gen) authTx() Op {
 		}
 		return Op{K: "cancel", Creator: adv, Provider: g.acctIndex(o.Provider) + 1, OrderId: o.Id}
 	case 13: // legitimate: the hot key of honest node 1 submits an order through node 1
+		if r.Chance(20) {
+			// node 1 re-registers its transaction addresses: the hot key moves between accounts 7 and 9, the other one is revoked
+			t := true
+			return Op{K: "reset", Creator: 1, Status: 15, PeerOk: &t, TxAddrs: [][]int{{9 + 1}, {7 + 1}}[r.Intn(2)]}
+		}
 		owner := g.Owners[r.Intn(len(g.Owners))]
 		d := g.newDataId()
 		return Op{K: "store", Creator: 7, Provider: 1 + 1, Signer: owner + 1, Owner: owner + 1, Duration: 3600, Replica: 1,
